@@ -60,6 +60,7 @@ func C01(c *Ctx) {
 	r.MinRule("C01-a", 20)
 	r.MinRule("C01-c", 18)
 	c01dLowering(c)
+	basicLatinCaseClosure(c, "C01-d")
 }
 
 // c01a: fail => pt=Entry, counters balanced.
